@@ -40,12 +40,13 @@ var targets = []target{
 	{"cisco", nil, []string{"parser.ParseConfig", "parser.lookupCmd", "matchCmd", "postprocessParsed",
 		"postprocessIOSACL", "postprocessASAACL", "postprocessACLParts", "dstOfRoute", "State.alignVRFs",
 		"State.checkASAInterfaces", "State.checkIOSInterfaces"}},
-	{"linux", nil, []string{"State.ParseConfig", "parseRoutes", "State.parseIPTables"}},
+	{"linux", nil, []string{"State.ParseConfig", "parseRoutes", "State.parseIPTables", "config.MergeSpoc"}},
 	{"nsx", nil, []string{"State.ParseConfig", "checkNoNull", "checkRaw", "checkConfigValidity", "removeHeader",
 		"sortGroups", "sortRules", "findGroupOnDevice", "groupPair.LenA", "groupPair.LenB", "groupPair.Equal",
 		"rulesPair.Equal", "rulesPair.adaptGroup", "rulesPair.equalizeGroups"}},
 	{"panos", nil, []string{"State.ParseConfig", "checkRaw", "parseResponseConfig", "PanConfig.MergeSpoc",
-		"processVsysPairs", "PanConfig.getDevName", "State.GetChanges"}},
+		"processVsysPairs", "PanConfig.getDevName", "State.GetChanges", "diffConfig", "vsysInfo.checkGroupCycle",
+		"getObjListType", "rulesPair.markAddresses"}},
 	{"codefiles", nil, []string{"LoadInfoFile", "GetIPPDP"}},
 	{"status", nil, []string{"Read"}},
 }
@@ -97,7 +98,8 @@ func recvName(fd *ast.FuncDecl) string {
 
 // isGuard: conditions that protect an index, slice or dereference.
 func isGuard(cond string) bool {
-	return strings.Contains(cond, "len(") || strings.Contains(cond, "nil") || strings.Contains(cond, "== -1")
+	return strings.Contains(cond, "len(") || strings.Contains(cond, "nil") || strings.Contains(cond, "== -1") ||
+		strings.Contains(cond, "> 0") || strings.Contains(cond, ">= 0")
 }
 
 type descr struct {
@@ -302,16 +304,24 @@ func main() {
 								add("repeat", x)
 							case "need":
 								add("guard", x)
+							default:
+								// calls of validity checks (checkNoNull, checkRaw, checkGroupCycle, …) are guards:
+								// dropping one is a changed site
+								f := exprText(fset, x.Fun)
+								if i := strings.LastIndex(f, "."); i >= 0 {
+									f = f[i+1:]
+								}
+								if strings.HasPrefix(f, "check") && len(f) > 5 && f[5] >= 'A' && f[5] <= 'Z' {
+									add("guard", x)
+								}
 							}
 						case *ast.IfStmt:
 							if t := exprText(fset, x.Cond); isGuard(t) {
 								add("guard", x.Cond)
 							}
 						case *ast.ForStmt:
-							if x.Cond != nil {
-								if t := exprText(fset, x.Cond); isGuard(t) {
-									add("guard", x.Cond)
-								}
+							if x.Cond != nil { // every loop bound is a guard
+								add("guard", x.Cond)
 							}
 						}
 						return true
